@@ -1102,7 +1102,22 @@ def _opaque_unary(name):
 
 model(np.sqrt)(_opaque_unary("sqrt"))
 model(np.exp)(_opaque_unary("exp"))
-model(np.cos)(_opaque_unary("cos"))
+def _cos_model(I, a, k):
+    """A-MATH: cos is opaque except cos(0) = 1, cos(np.pi) = -1 (np.pi is the binary64 constant; the error of cos at it is below 1e-16 and
+    ignored under A-REAL), |cos| <= 1 and cos non increasing on [0, np.pi]"""
+    r = _opaque_unary("cos")(I, a, k)
+    if r is NotImplemented:
+        return r
+    f = z3.Function("cos!uf", z3.RealSort(), z3.RealSort())
+    x, y = z3.Reals("cos!x cos!y")
+    pi = term(float(np.pi))
+    A.note_fact(f(z3.RealVal(0)) == 1, f(pi) == -1,
+                z3.ForAll([x], z3.And(f(x) >= -1, f(x) <= 1), patterns=[f(x)]),
+                z3.ForAll([x, y], z3.Implies(z3.And(x >= 0, x <= y, y <= pi), f(x) >= f(y)), patterns=[z3.MultiPattern(f(x), f(y))]))
+    return r
+
+
+model(np.cos)(_cos_model)
 model(np.sin)(_opaque_unary("sin"))
 
 
@@ -1197,3 +1212,100 @@ def _sign(I, a, k):
     xx = A.as_sarr(x)
     one = (lambda v: z3.RealVal(v)) if xx.dtype.kind == "f" else (lambda v: z3.IntVal(v))
     return _unbox(A.ewise(lambda t: z3.If(t > 0, one(1), z3.If(t < 0, one(-1), one(0))), xx.dtype, xx))
+
+
+# ----------------------------------------------------------------------------- FFT family (A-FFT: shapes exact, contents opaque)
+import scipy.fft as _sfft
+
+
+def _fft_model(kind):
+    def m(I, a, k):
+        if not _anysym(a, k):
+            return NotImplemented
+        x = A.as_sarr(a[0])
+        n = k.get("n", a[1] if len(a) > 1 else None)
+        axis = k.get("axis", a[2] if len(a) > 2 else -1)
+        axis = int(axis) % x.ndim
+        nin = A.T(x.shape[axis])
+        if kind == "rfft":
+            nin_eff = nin if n is None else term(n)
+            nout = nin_eff / 2 + 1
+            dt = np.dtype("complex64") if x.dtype == np.dtype("float32") else np.dtype("complex128")
+        elif kind == "irfft":
+            nout = 2 * (nin - 1) if n is None else term(n)       # numpy / scipy default: n = 2*(m-1)
+            dt = np.dtype("float32") if x.dtype == np.dtype("complex64") else np.dtype("float64")
+        else:
+            nout = nin if n is None else term(n)
+            dt = np.dtype("complex64") if x.dtype in (np.dtype("float32"), np.dtype("complex64")) else np.dtype("complex128")
+        shape = list(x.shape)
+        shape[axis] = A.dim(nout)
+        out = A.fresh_array(kind, dt, tuple(shape)) if dt.kind != "c" else _fresh_complex(kind, dt, tuple(shape))
+        c = A.cur()
+        if c is not None:
+            if not hasattr(c, "fft_log"):
+                c.fft_log = []
+            c.fft_log.append({"kind": kind, "in_shape": x.shape, "in": x.snapshot(), "axis": axis, "n": n, "out": out})
+        return out
+    return m
+
+
+def _fresh_complex(name, dt, shape):
+    CS = A.sort_of(dt)
+    f = z3.Function(fresh_name(name), *([z3.IntSort()] * len(shape)), CS) if shape else z3.Const(fresh_name(name), CS)
+    arr = SArr(dt, shape, (lambda idx: f(*idx)) if shape else (lambda idx: f))
+    arr.uf = f
+    return arr
+
+
+for _mod in (np.fft, _sfft):
+    model(_mod.rfft)(_fft_model("rfft"))
+    model(_mod.irfft)(_fft_model("irfft"))
+    model(_mod.fft)(_fft_model("fft"))
+    model(_mod.ifft)(_fft_model("ifft"))
+
+
+@model(np.real)
+def _real(I, a, k):
+    if not _anysym(a, k):
+        return NotImplemented
+    x = A.as_sarr(a[0])
+    if x.dtype.kind != "c":
+        return x
+    CS = A.sort_of(x.dtype)
+    re = z3.Function("c_real!uf", CS, z3.RealSort())
+    dt = np.dtype("float32") if x.dtype == np.dtype("complex64") else np.dtype("float64")
+    return _unbox(A.ewise(lambda t: re(t), dt, x))
+
+
+@model(np.conj, np.conjugate)
+def _conj(I, a, k):
+    """conjugation: identity on reals, an involutive uninterpreted function on the complex sort"""
+    if not _anysym(a, k):
+        return NotImplemented
+    x = A.as_sarr(a[0])
+    if x.dtype.kind != "c":
+        return x
+    CS = A.sort_of(x.dtype)
+    cj = z3.Function("c_conj!uf", CS, CS)
+    z = z3.Const(fresh_name("z"), CS)
+    A.note_fact(z3.ForAll([z], cj(cj(z)) == z, patterns=[cj(cj(z))]))
+    return _unbox(A.ewise(lambda t: cj(t), x.dtype, x))
+
+
+@model(np.searchsorted)
+def _searchsorted(I, a, k):
+    """A-NP-SPEC (side='left'): index r with sorted[r-1] < v <= sorted[r]"""
+    if not _anysym(a, k):
+        return NotImplemented
+    if k.get("side", "left") != "left":
+        raise Unsupported("searchsorted side != left")
+    srt, v = a[0], a[1]
+    if isinstance(v, (SArr, list, np.ndarray)):
+        raise Unsupported("searchsorted with an array of values and symbolic operands")
+    sa = A.as_sarr(srt)
+    n = A.T(sa.shape[0])
+    r = z3.Int(fresh_name("ss"))
+    s = sa.snapshot()
+    vt = term(v)
+    A.note_fact(r >= 0, r <= n, z3.Implies(r > 0, s((r - 1,)) < vt), z3.Implies(r < n, vt <= s((r,))))
+    return wrap(r)
